@@ -8,6 +8,10 @@ def selftest(which, verbose):
     """Engine self-test on the corpus in /verif/selftest/<which>: functions named Ok_* must have every obligation discharged,
     functions named Bad_* must have at least one failing obligation or be reported undecided.  Run after every engine change."""
     corpus = os.path.join(ROOT, 'selftest', which)
+    b = subprocess.run(['go', 'build', './...'], cwd=corpus, stdout=subprocess.PIPE, stderr=subprocess.STDOUT, text=True,
+                       env=dict(os.environ, GOFLAGS='-mod=mod', GOPROXY='off', GOSUMDB='off', GOTOOLCHAIN='local'))
+    if b.returncode != 0:
+        print(b.stdout[-1500:]); print('SELFTEST %s: the corpus does not compile' % which); return 1
     out = tempfile.mkdtemp(prefix='gvc-selftest-')
     env = dict(os.environ, VERIF_REPO=corpus, VERIF_OUT=out)
     p = subprocess.run([sys.executable, '-m', 'gvc.core.main', 'prop', 'S01'] + (['-v'] if verbose else []), cwd=ROOT, env=env,
